@@ -13,13 +13,15 @@ def extra_entries():
     from nflows.flows.realnvp import SimpleRealNVP
     from nflows.flows.base import Flow
     from nflows.distributions import normal, mixture
-    from nflows.transforms import permutations as perm, base, conv, nonlinearities as nl, made
+    from nflows.transforms import permutations as perm, base, conv, nonlinearities as nl, made, normalization as norm_, standard as std_
     return [
         ("MaskedAutoregressiveFlow(random masks, perms)", lambda: MaskedAutoregressiveFlow(4, 8, 2, 1, use_residual_blocks=False, use_random_masks=True, use_random_permutations=True, batch_norm_within_layers=True, batch_norm_between_layers=True), [4], None),
         ("SimpleRealNVP", lambda: SimpleRealNVP(4, 8, 2, 1, batch_norm_between_layers=True), [4], None),
         ("MADEMoG(random mask)", lambda: mixture.MADEMoG(3, 8, 2, num_blocks=1, num_mixture_components=2, use_residual_blocks=False, random_mask=True), [3], [2]),
         ("DiagonalNormal", lambda: normal.DiagonalNormal([3]), [3], None),
         ("Flow(RandomPermutation+1x1conv, StandardNormal)", lambda: Flow(base.CompositeTransform([perm.RandomPermutation(3), nl.LeakyReLU()]), normal.StandardNormal([3])), [3], None),
+        ("Composite(ActNorm, LeakyReLU, ActNorm)", lambda: base.CompositeTransform([norm_.ActNorm(3), nl.LeakyReLU(0.2), norm_.ActNorm(3)]), [3], None),
+        ("Flow(Composite(ActNorm, Affine), StandardNormal)", lambda: Flow(base.CompositeTransform([norm_.ActNorm(3), std_.PointwiseAffineTransform(0.3, 1.7)]), normal.StandardNormal([3])), [3], None),
         ("MADE(random mask)", None, None, None),
     ]
 
@@ -46,7 +48,7 @@ def search(ck, tier, seed):
         if make is not None:
             items.append((name, make, shape, ctx, None))
     for name, make, shape, ctxs, e in items:
-        for history in ("fresh", "trained", "data-init"):
+        for history in ("fresh", "trained", "data-init", "perturbed"):
             ck.case(("c15", name, history), nontrivial=True)
             ck.count(history)
             case = {"search": "reload", "entry": name, "history": history, "seed": seed}
@@ -73,6 +75,13 @@ def search(ck, tier, seed):
                             opt.zero_grad()
                             loss.backward()
                             opt.step()
+                elif history == "perturbed":
+                    # every floating-point parameter AND buffer moved away from what the constructor put there (a checkpoint may
+                    # hold any values): scaled by 1 + 0.2 * noise, so signs and positivity are kept
+                    with torch.no_grad():
+                        for nm_, tn_ in m.state_dict(keep_vars=True).items():      # what a checkpoint holds (persistent entries only)
+                            if tn_.dtype.is_floating_point and tn_.numel() > 0:
+                                tn_.mul_(1.0 + 0.2 * torch.randn(tn_.shape, generator=g).clamp(-2, 2).to(tn_.dtype))
                 elif history == "data-init":
                     m.train()
                     with torch.no_grad():
@@ -103,6 +112,62 @@ def search(ck, tier, seed):
                                "%s (%s): %s differs after loading the state dict into a fresh instance built under another seed"
                                % (name, history, k), case)
                     break
+            # the same state dict loaded into an instance that has already been USED (evaluated in evaluation mode without
+            # gradients, as a deployed model would be): whatever it memoised from its old parameters must not survive the load
+            torch.manual_seed(seed + 104729)
+            m3 = attempt(make)
+            if m3[0] == "ok":
+                m3 = m3[1]
+                m3.eval()
+                attempt(evaluate, m3, x, ctx)
+                l3 = attempt(m3.load_state_dict, copy.deepcopy(sd), True)
+                if l3[0] == "ok":
+                    m3.eval()
+                    got3 = attempt(evaluate, m3, x, ctx)
+                    if got3[0] != "ok":
+                        ck.finding("reload:reloaded-model-fails:%s" % name, "%s (%s, loaded into a used instance): %s %s" % (name, history, got3[1], got3[2]), case)
+                    else:
+                        for k, v in ref[1].items():
+                            v2 = got3[1].get(k)
+                            if not (v2 is not None and v.shape == v2.shape and bool(((v == v2) | (torch.isnan(v) & torch.isnan(v2))).all())):
+                                ck.finding("reload:different-function:used-instance:%s" % name,
+                                           "%s (%s): %s differs after loading the state dict into an instance that had been evaluated before" % (name, history, k), case)
+                                break
+            # ... and in TRAINING mode (what a freshly built instance is in) on another batch: a restored model continues where
+            # the saved one stopped - data-dependent initialisation is not repeated, statistics continue from the saved values
+            x2 = torch.rand([6] + shape, generator=g) * 0.9 + 0.05 if dom_unit else torch.randn([6] + shape, generator=g) * 1.3 + 0.2
+            ctx2 = None if ctxs is None else torch.randn([6] + ctxs, generator=g)
+
+            def train_eval(mm):
+                mm.train()
+                torch.manual_seed(seed + 13)
+                with torch.no_grad():
+                    if hasattr(mm, "log_prob"):
+                        out = {"log_prob": mm.log_prob(x2, ctx2) if ctx2 is not None else mm.log_prob(x2)}
+                    else:
+                        y_, l_ = mm(x2, ctx2)
+                        out = {"forward": y_, "logabsdet": l_}
+                out["state"] = copy.deepcopy(mm.state_dict())
+                return out
+            ta, tb = attempt(train_eval, m), attempt(train_eval, m2)
+            if ta[0] == "ok" and tb[0] != "ok":
+                ck.finding("reload:reloaded-model-fails:%s" % name, "%s (%s, training mode): %s %s" % (name, history, tb[1], tb[2]), case)
+            elif ta[0] == "ok":
+                bad = None
+                for k, v in ta[1].items():
+                    v2 = tb[1][k]
+                    if k == "state":
+                        for kk in v:
+                            if kk in v2 and v[kk].shape == v2[kk].shape and not bool(((v[kk] == v2[kk]) | (v[kk] != v[kk])).all()):
+                                bad = "state entry %s after the call" % kk
+                                break
+                    elif not (v.shape == v2.shape and bool(((v == v2) | (torch.isnan(v) & torch.isnan(v2))).all())):
+                        bad = k
+                    if bad:
+                        break
+                if bad:
+                    ck.finding("reload:different-function:training-mode:%s" % name,
+                               "%s (%s): %s differs between the saved and the restored model on their next training-mode call" % (name, history, bad), case)
             # dynamic cross-check of the generated table: every parameter / buffer name of the instance is a registration row
             # (not compared name by name here; the set of state-dict keys must be identical on both instances)
             if set(m.state_dict().keys()) != set(m2.state_dict().keys()):
@@ -113,8 +178,10 @@ def run(tier, seed):
     ck = Check("C15", tier, seed, areas=[], gen_groups=["Tables"])
     ck.rule = ("every catalogue transform plus flows / distributions with constructor-time randomness (random permutations, "
                "random masks, random degrees, 1x1-conv permutation, random spline parameters) x history before saving "
-               "(fresh, two SGD steps, data-dependent initialisation): state dict loaded strictly into a fresh instance built "
-               "under a different seed, forward / inverse / log_prob compared bit-for-bit; distinct by (entry, history)")
+               "(fresh, two SGD steps, data-dependent initialisation, all floating-point parameters and buffers perturbed): state dict loaded strictly into a fresh instance built "
+               "under a different seed (and into an instance that had been evaluated before), forward / inverse / log_prob compared "
+               "bit-for-bit in evaluation mode and, on a further batch, in training mode together with the state afterwards; "
+               "distinct by (entry, history)")
     ck.assumptions = ["torch's load_state_dict(strict=True) contract", "the translator's notion of a random source"]
     ck.build()
     ck.sample({"generated_table": "Gen/Tables.v attr_table"})
